@@ -114,8 +114,14 @@ def run(res, a):
                         break
                 if len(seq) > 3000:
                     continue
+                seq = [str(x) for x in seq]
+                if rng.random() < 0.3 and len(seq) > 1:
+                    # the accessory writes on the connection between reads (answers and events go out while a request is
+                    # still being read): a frame that was read only in part must still be delivered in full
+                    for _ in range(rng.randrange(1, 4)):
+                        seq.insert(rng.randrange(1, min(len(seq), 12)), "w%d" % rng.choice([1, 40, 1500]))
                 cases.append({"id": "cr%d" % len(cases), "kind": "read",
-                              "line": "cr %s %s %s" % (shared.hex(), ",".join(evs) if evs else "-", ",".join(map(str, seq))),
+                              "line": "cr %s %s %s" % (shared.hex(), ",".join(evs) if evs else "-", ",".join(seq)),
                               "meta": {"plain": plain.hex(), "nframes": len(frames), "nseg": len(seg)}})
     core.run_correspondence(res, "conn", cases, me)
 
